@@ -723,6 +723,11 @@ ATTACH_ONLY = {
     'C01': ['cooler.create._ingest.sanitize_pixels', 'cooler.create._ingest._sanitize_pixels'],
     # where the inferred bin size is published (bin-type / bin-size attributes) and read back (C20-r4-3)
     'C20': ['cooler.create._create.create', 'cooler.api.Cooler.binsize'],
+    # the sibling loaders of the tabix loader (same interface, same bin-assignment rule; section 1, agreement clauses)
+    'C05': ['cooler.create._ingest.HDF5Aggregator.__init__', 'cooler.create._ingest.HDF5Aggregator.__iter__',
+            'cooler.create._ingest.HDF5Aggregator._index_chroms', 'cooler.create._ingest.HDF5Aggregator._load_chunk',
+            'cooler.create._ingest.HDF5Aggregator.aggregate', 'cooler.create._ingest.PairixAggregator.__iter__',
+            'cooler.create._ingest.PairixAggregator.aggregate', 'cooler.create._ingest.TabixAggregator.__init__'],
 }
 
 
